@@ -43,6 +43,7 @@ pub enum Mode {
 pub const VICTIMS: &[&str] = &[
     "CreateTopic", "DeleteTopic", "GetTopic", "CreateSubscription", "DeleteSubscription", "GetSubscription", "ListTopics", "ListSubscriptions", "ListTopicSubscriptions", "Publish", "Pull", "Acknowledge",
     "ModifyAckDeadline(0)", "ModifyAckDeadline(30)", "StreamingPull open", "StreamingPull control message", "CreateSubscription(push)", "CreateSubscription then immediate retry",
+    "Publish of 250 messages",
 ];
 
 fn victim_op(v: u8) -> Option<Op> {
@@ -63,6 +64,7 @@ fn victim_op(v: u8) -> Option<Op> {
         13 => Op::Modify { s: S0, refs: vec![AckRef::Recent(0)], secs: 30, a: false },
         16 => Op::CreateSub { s: S { p: 0, i: 6 }, t: T0, dl: 10, push: 1, a: false },
         17 => Op::CreateSub { s: S { p: 0, i: 5 }, t: T0, dl: 10, push: 0, a: false },
+        18 => Op::PublishMany { t: T0, n: 250, a: false },
         _ => return None,
     })
 }
